@@ -3038,6 +3038,16 @@ namespace bloch::runtime {
                 throw BlochError(ErrorCategory::Runtime, memAcc->line, memAcc->column,
                                  "null reference");
             }
+            // 'super.f' names the inherited instance field f of the current object ('super'
+            // evaluates to the base CLASS, which has no instance fields of its own)
+            if (obj.type == Value::Type::ClassRef && obj.classRef &&
+                dynamic_cast<SuperExpression*>(memAcc->object.get())) {
+                if (std::shared_ptr<Object> self = currentThisObject()) {
+                    RuntimeField* inherited = findInstanceField(obj.classRef, memAcc->member);
+                    if (inherited && inherited->offset < self->fields.size())
+                        return self->fields[inherited->offset];
+                }
+            }
             if (obj.type == Value::Type::ClassRef && obj.classRef) {
                 auto [field, owner] = staticFieldWithOwner(obj.classRef, memAcc->member);
                 RuntimeMethod* method = findMethod(obj.classRef, memAcc->member);
